@@ -81,8 +81,9 @@ def do_import(src, remap=False):
         print('imported', dst)
 
 MIRROR = os.environ.get('MIRROR') == '1'   # work on /tmp/repo-seed + /tmp/vmirror (see seedtest_mirror.sh) instead of /repo + /verif
-REPO = '/tmp/repo-seed' if MIRROR else '/repo'
-VDIR = '/tmp/vmirror' if MIRROR else '/verif'
+MID = os.environ.get('MIRROR_ID', '')       # several mirrors side by side
+REPO = '/tmp/repo-seed' + MID if MIRROR else '/repo'
+VDIR = '/tmp/vmirror' + MID if MIRROR else '/verif'
 
 def prepare_mirror():
     os.makedirs(VDIR, exist_ok=True)
